@@ -1,2 +1,99 @@
-(* Model for C04 — to be written. Executable definitions only, no proofs. *)
-From WI Require Import Lib.Base Lib.Info.
+(* C04: sources of nondeterminism in the Go code and their models.
+   - Go randomises the iteration order of every `range` over a map: modelled as iteration
+     over an ARBITRARY permutation of the entries;
+   - time formatting in the local zone depends on TZ: modelled by an explicit offset;
+   - reads of the environment / wall clock: there must be none in reachable code.
+   The inventory of such sites is regenerated from the source on every run (gen/Scan.v);
+   the classification below is hand-written and checked against it. *)
+From WI Require Import Lib.Base Lib.Time.
+From Coq Require Import String.
+From WI Require gen.Scan.
+Open Scope N_scope.
+
+(* ---------- map ranges ---------- *)
+Inductive range_status :=
+| RUnreachable                 (* not reachable from inspection (checked against the CHA list) *)
+| RSortedAfter                 (* keys collected in map order, then sorted before use: see sort_perm_invariant *)
+| RLookupOnly.                 (* body performs only order-insensitive accumulation into a set/map *)
+
+Definition range_class : list (string * N * range_status) := [
+  ("internal/openpgp/armor:Encode", 1, RUnreachable);
+  ("internal/openpgp:*Entity.primaryIdentity", 1, RUnreachable);
+  ("internal/openpgp:EntityList.KeysById", 1, RUnreachable);
+  ("internal/openpgp:*Entity.SerializePrivate", 1, RUnreachable);
+  ("internal/openpgp:*Entity.Serialize", 1, RUnreachable);
+  ("internal/file:pgpKey", 1, RSortedAfter)
+]%string.
+
+Fixpoint lookup_range (f : string) (o : N) (l : list (string * N * range_status)) : option range_status :=
+  match l with
+  | [] => None
+  | (f', o', s) :: r => if (String.eqb f f' && (o =? o'))%bool then Some s else lookup_range f o r
+  end.
+
+Definition mem_string (s : string) (l : list string) : bool := existsb (String.eqb s) l.
+
+Definition ranges_benign (ranges : list (string * N * string)) (reach : list string) : bool :=
+  forallb (fun r => match r with (f, o, _) =>
+    match lookup_range f o range_class with
+    | Some RUnreachable => negb (mem_string f reach)
+    | Some _ => true
+    | None => false
+    end end) ranges.
+
+(* ---------- environment reads and time formatting ---------- *)
+Inductive env_status :=
+| EUtcByLibrary.     (* the formatted time.Time comes from crypto/x509, which returns UTC *)
+
+Definition env_class : list (string * string * N * env_status) := [
+  ("internal/file:getCertificateInfo", "format-zone-unknown", 1, EUtcByLibrary);
+  ("internal/file:getCertificateInfo", "format-zone-unknown", 2, EUtcByLibrary)
+]%string.
+
+Definition env_site_ok (e : string * string * N) : bool :=
+  match e with (f, k, o) =>
+    String.eqb k "format-utc"
+    || existsb (fun c => match c with (f', k', o', _) => String.eqb f f' && String.eqb k k' && (o =? o') end) env_class
+  end.
+
+Definition env_benign (sites : list (string * string * N)) : bool := forallb env_site_ok sites.
+
+(* ---------- model of a map range followed by use: key usages (internal/file/der.go) ---------- *)
+(* x509.KeyUsage bit i has value 2^i, in RFC 5280 order *)
+Definition usage_table : list (N * bytes) := [
+  (1, bs "digitalSignature"); (2, bs "contentCommitment"); (4, bs "keyEncipherment");
+  (8, bs "dataEncipherment"); (16, bs "keyAgreement"); (32, bs "certSign"); (64, bs "cRLSign");
+  (128, bs "encipherOnly"); (256, bs "decipherOnly")].
+
+(* the loop `for u, s := range table { if ku&u == u { ss = append(ss, s) } }` run over the
+   entries in the order [order] *)
+Definition usages_in_order (order : list (N * bytes)) (ku : N) : list bytes :=
+  map snd (filter (fun e => N.land ku (fst e) =? fst e) order).
+
+(* after the repair the code iterates an ordered slice *)
+Definition key_usages (ku : N) : list bytes := usages_in_order usage_table ku.
+
+(* ---------- model of "collect map keys, sort, iterate" (pgpKey identities) ---------- *)
+Fixpoint bytes_leb (a b : bytes) : bool :=      (* Go's string comparison: lexicographic on bytes *)
+  match a, b with
+  | [], _ => true
+  | _ :: _, [] => false
+  | x :: a', y :: b' => if x <? y then true else if y <? x then false else bytes_leb a' b'
+  end.
+
+Fixpoint insert_sorted (x : bytes) (l : list bytes) : list bytes :=
+  match l with
+  | [] => [x]
+  | y :: r => if bytes_leb x y then x :: l else y :: insert_sorted x r
+  end.
+Definition sort_strings (l : list bytes) : list bytes := fold_right insert_sorted [] l.
+
+(* identities listed: the keys of the map, enumerated in runtime order [keys], then sorted *)
+Definition identities_listed (keys : list bytes) : list bytes := sort_strings keys.
+
+(* ---------- time formatting ---------- *)
+(* a date attribute computed in the zone [offset] (seconds east of UTC); the repaired code uses 0 *)
+Definition date_attr_at (offset sec : Z) : bytes := fmt_date (civil_of_unix sec offset).
+Definition date_attr (sec : Z) : bytes := date_attr_at 0 sec.
+Definition keystore_date_at (offset sec : Z) : bytes := fmt_rfc3339 sec offset.
+Definition keystore_date (sec : Z) : bytes := keystore_date_at 0 sec.
